@@ -12,6 +12,7 @@ import (
 	"io"
 	"net"
 	"sync"
+	"sync/atomic"
 	"time"
 
 	"github.com/quic-go/qpack"
@@ -73,17 +74,67 @@ const (
 	stQDec    = 0x3
 )
 
-func appendVarint(b []byte, v uint64) []byte {
+// varintMinLen is the length of the shortest encoding of v (RFC 9000 section 16).
+func varintMinLen(v uint64) int {
 	switch {
 	case v < 1<<6:
-		return append(b, byte(v))
+		return 1
 	case v < 1<<14:
-		return append(b, byte(v>>8)|0x40, byte(v))
+		return 2
 	case v < 1<<30:
-		return append(b, byte(v>>24)|0x80, byte(v>>16), byte(v>>8), byte(v))
-	default:
-		return append(b, byte(v>>56)|0xc0, byte(v>>48), byte(v>>40), byte(v>>32), byte(v>>24), byte(v>>16), byte(v>>8), byte(v))
+		return 4
 	}
+	return 8
+}
+
+// Generated varint encodings. RFC 9000 section 16: "Values do not need to be encoded on the minimum number of bytes
+// necessary, with the sole exception of the Frame Type field" (of QUIC frames, section 12.4). RFC 9114 adds no such
+// rule for any of its own varints (frame type, frame length, stream type, setting identifiers and values, stream /
+// push IDs in GOAWAY, CANCEL_PUSH, MAX_PUSH_ID, PUSH_PROMISE), so a conforming peer may use a longer form anywhere.
+//
+// The raw peer therefore draws the width of EVERY varint it writes: the case carries (VSeed, VDens); the width of a
+// varint is a pure function of (VSeed, value, position in the buffer being built), so it does not depend on the
+// order in which goroutines serialise their frames and a replay re-creates the same bytes. VDens 0 (old replay
+// files, shrunk cases) = every varint minimal; 1 = about a quarter longer than necessary; 2 = half; 3 = all.
+var varintEnc atomic.Uint64 // VSeed<<2 | VDens of the running case (cases of one process run one after the other)
+
+func setVarintEnc(seed uint64, dens int) {
+	if dens < 0 || dens > 3 {
+		dens = 0
+	}
+	varintEnc.Store(seed<<2 | uint64(dens))
+}
+
+// varintWidth returns the generated width (1, 2, 4, 8) for value v written at offset pos.
+func varintWidth(v uint64, pos int) int {
+	m := varintMinLen(v)
+	e := varintEnc.Load()
+	dens := int(e & 3)
+	if dens == 0 || m == 8 {
+		return m
+	}
+	h := (e>>2)*0x9e3779b97f4a7c15 ^ (v+1)*0xbf58476d1ce4e5b9 ^ uint64(pos+1)*0x94d049bb133111eb
+	h ^= h >> 29
+	h *= 0xd6e8feb86659fd93
+	h ^= h >> 32
+	if dens < 3 && int(h&3) >= []int{0, 1, 2}[dens] {
+		return m
+	}
+	// any longer legal form, the largest one as likely as the next larger one
+	var longer []int
+	for w := 2 * m; w <= 8; w *= 2 {
+		longer = append(longer, w)
+	}
+	return longer[int((h>>8)%uint64(len(longer)))]
+}
+
+func appendVarint(b []byte, v uint64) []byte {
+	return appendVarintN(b, v, varintWidth(v, len(b)))
+}
+
+// appendVarintMin always uses the shortest encoding.
+func appendVarintMin(b []byte, v uint64) []byte {
+	return appendVarintN(b, v, varintMinLen(v))
 }
 
 // appendVarintN encodes v in exactly n bytes (n in 1,2,4,8; non-minimal encodings are legal in QUIC).
@@ -158,6 +209,44 @@ func settingsPayload(kv ...uint64) []byte {
 	return b
 }
 
+// rawSettingsFrame is the SETTINGS frame a conforming raw peer opens its control stream with. When the case asks for
+// generated varint encodings it also carries settings (a subset derived from the case's encoding seed), so that
+// identifiers and values in longer-than-minimal forms reach the SETTINGS parser: SETTINGS_MAX_FIELD_SECTION_SIZE
+// (0x6, at least 1 MiB: never a limit for the messages of this check), the QPACK settings 0x1 / 0x7 with their
+// default 0 (RFC 9204 5), SETTINGS_ENABLE_CONNECT_PROTOCOL (0x8) = 1 (RFC 9220), SETTINGS_H3_DATAGRAM (0x33) = 0
+// (RFC 9297), and a reserved identifier 0x1f*N+0x21 with an arbitrary value (RFC 9114 7.2.4.1: MUST be ignored).
+// None of them changes what either side may send in any scenario. Density 0: the empty frame, as before.
+func rawSettingsFrame() []byte {
+	e := varintEnc.Load()
+	if e&3 == 0 {
+		return appendFrame(nil, ftSettings, nil)
+	}
+	h := (e>>2)*0x9e3779b97f4a7c15 + 0x632be59bd9b4e019
+	h ^= h >> 31
+	h *= 0xd6e8feb86659fd93
+	h ^= h >> 29
+	var kv []uint64
+	if h&1 != 0 {
+		kv = append(kv, 0x6, 1<<20+(h>>8)%(1<<32))
+	}
+	if h&2 != 0 {
+		kv = append(kv, 0x1, 0)
+	}
+	if h&4 != 0 {
+		kv = append(kv, 0x7, 0)
+	}
+	if h&8 != 0 {
+		kv = append(kv, 0x8, 1)
+	}
+	if h&16 != 0 {
+		kv = append(kv, 0x33, 0)
+	}
+	if h&32 != 0 {
+		kv = append(kv, 0x21+0x1f*((h>>16)%(1<<40)), (h>>20)&(1<<62-1))
+	}
+	return appendFrame(nil, ftSettings, settingsPayload(kv...))
+}
+
 // rawFrame is one frame read from a stream.
 type rawFrame struct {
 	Type    uint64
@@ -200,6 +289,11 @@ func (m *message) field(section int, name string) (string, bool) {
 
 // readMessage parses frames until the stream ends. limit bounds the body bytes kept.
 func readMessage(r io.Reader, onBody func(total int) bool) *message {
+	return readMessageF(r, onBody, nil)
+}
+
+// readMessageF additionally reports every complete frame as soon as it was read (control streams never end).
+func readMessageF(r io.Reader, onBody func(total int) bool, onFrame func(rawFrame)) *message {
 	m := &message{}
 	br := &byteReader{r: r}
 	for {
@@ -270,6 +364,9 @@ func readMessage(r io.Reader, onBody func(total int) bool) *message {
 			f.Payload = payload
 		}
 		m.Frames = append(m.Frames, f)
+		if onFrame != nil {
+			onFrame(f)
+		}
 	}
 }
 
@@ -366,7 +463,7 @@ func dialRawClient(ctx context.Context, w *sim.World, pc net.PacketConn, idle ti
 	c.uniClosed.Add(1)
 	go c.acceptUni()
 	if withControl {
-		if err := c.openControl(appendFrame(nil, ftSettings, settingsPayload())); err != nil {
+		if err := c.openControl(rawSettingsFrame()); err != nil {
 			return c, err
 		}
 	}
@@ -401,10 +498,11 @@ func (c *rawClient) acceptUni() {
 			c.peerUni = append(c.peerUni, t)
 			c.mu.Unlock()
 			if t == stControl {
-				m := readMessage(str, nil)
-				c.mu.Lock()
-				c.peerCtrl = append(c.peerCtrl, m.Frames...)
-				c.mu.Unlock()
+				readMessageF(str, nil, func(f rawFrame) {
+					c.mu.Lock()
+					c.peerCtrl = append(c.peerCtrl, f)
+					c.mu.Unlock()
+				})
 				return
 			}
 			io.Copy(io.Discard, str)
@@ -516,7 +614,7 @@ func (s *rawServer) serveConn(sc *rawServerConn) {
 	if s.onConn != nil {
 		s.onConn(sc)
 	} else {
-		sc.openControl(appendFrame(nil, ftSettings, settingsPayload()))
+		sc.openControl(rawSettingsFrame())
 	}
 	s.wg.Add(1)
 	go func() {
@@ -537,10 +635,11 @@ func (s *rawServer) serveConn(sc *rawServerConn) {
 				sc.peerUni = append(sc.peerUni, t)
 				sc.mu.Unlock()
 				if t == stControl {
-					m := readMessage(str, nil)
-					sc.mu.Lock()
-					sc.peerCtrl = append(sc.peerCtrl, m.Frames...)
-					sc.mu.Unlock()
+					readMessageF(str, nil, func(f rawFrame) {
+						sc.mu.Lock()
+						sc.peerCtrl = append(sc.peerCtrl, f)
+						sc.mu.Unlock()
+					})
 					return
 				}
 				io.Copy(io.Discard, str)
